@@ -872,6 +872,46 @@ func paramsStoredWith(c *Ctx, ev *evaluator, st *ssa.Store) string {
 					found = d.String()
 				}
 			case *ssa.Call:
+				// a helper that fills the parameters from one of its arguments: h(…, oid) { asn1.Unmarshal(asn1.Marshal(oid), &….Parameters) }
+				if g := x.Call.StaticCallee(); g != nil && c.InModule(g) && g.Blocks != nil && (x.Block() == st.Block() || x.Block().Dominates(st.Block()) || st.Block().Dominates(x.Block())) {
+					for _, ci := range callsIn(g) {
+						if calleeFullName(ci) != "encoding/asn1.Unmarshal" {
+							continue
+						}
+						fa2, ok := unwrapIface(ci.Common().Args[1]).(*ssa.FieldAddr)
+						if !ok || fieldOfAddr(fa2).Name() != "Parameters" {
+							continue
+						}
+						// same object: the helper's access path below its parameter equals ours below the argument
+						hk := accessKey(fa2.X)
+						okBase := false
+						for i, p := range g.Params {
+							if i < len(x.Call.Args) && accessKey(x.Call.Args[i]) != "" && hk != "" &&
+								strings.Replace(hk, "param:"+p.Name(), accessKey(x.Call.Args[i]), 1) == accessKey(base) && strings.Contains(hk, "param:"+p.Name()) {
+								okBase = true
+							}
+						}
+						if !okBase {
+							continue
+						}
+						found = "unmarshal of something else"
+						for _, pe := range phiEdges(ci.Common().Args[0], nil) {
+							ex, ok := pe.Val.(*ssa.Extract)
+							if !ok {
+								continue
+							}
+							mc, ok := ex.Tuple.(*ssa.Call)
+							if !ok || calleeFullName(mc) != "encoding/asn1.Marshal" {
+								continue
+							}
+							for i, p := range g.Params {
+								if unwrapIface(mc.Call.Args[0]) == ssa.Value(p) && i < len(x.Call.Args) && isCurveOidLookup(c, x.Call.Args[i]) {
+									found = "curve-oid"
+								}
+							}
+						}
+					}
+				}
 				// asn1.Unmarshal(marshalledOid, &…Parameters)
 				if calleeFullName(x) == "encoding/asn1.Unmarshal" && (x.Block() == st.Block() || x.Block().Dominates(st.Block()) || st.Block().Dominates(x.Block())) {
 					if fa2, ok := unwrapIface(x.Call.Args[1]).(*ssa.FieldAddr); ok && fieldOfAddr(fa2).Name() == "Parameters" && sameBase(fa2.X) {
